@@ -1,7 +1,7 @@
 //! C11 — the syntax tree is lossless and every reported span is exact.
 
 use crate::engine::{catch, CaseCtx, CaseReport, Failure, Property, Tier};
-use crate::gen::ast::{render_trivia, to_sources};
+use crate::gen::ast::{render_plain, render_trivia, to_sources};
 use crate::gen::text::{corpus, gen_text, join_tokens, mutate_tokens, split_tokens};
 use crate::gen::typed::{Gen, GenCfg};
 use crate::oal::*;
@@ -276,8 +276,55 @@ pub fn check_sources(sources: &Sources, r: &mut CaseReport) {
     }
 }
 
+/// The body of an annotation that is not valid YAML (or not a mapping), with multi-byte
+/// characters before and after the place where a YAML parser gives up.
+fn broken_annotation(t: &mut Tape) -> String {
+    const WORDS: [&str; 12] = ["caf\u{e9}", "\u{540d}", "a", "na\u{ef}ve", "\u{20ac}\u{20ac}", "\u{1F600}", "title", "x\u{e9}\u{e9}\u{e9}", "description", "\u{fc}", "\u{540d}\u{524d}", "z"];
+    let w = |t: &mut Tape| (*t.pick_ref(&WORDS)).to_owned();
+    match t.choose(8) {
+        0 => format!("{}: {}: {}", w(t), w(t), w(t)),
+        1 => format!("description: {}: {}", w(t), w(t)),
+        2 => format!("{}: [{}, {} }}", w(t), w(t), w(t)),
+        3 => format!("{}: {{{}: {}", w(t), w(t), w(t)),
+        4 => format!("{}: @{}", w(t), w(t)),
+        5 => format!("{}: \"{} , {}: {}", w(t), w(t), w(t), w(t)),
+        6 => format!("{} {}: {}, {}: - {}", w(t), w(t), w(t), w(t), w(t)),
+        _ => format!("- {}: {}: %{}", w(t), w(t), w(t)),
+    }
+}
+
+/// Replaces one annotation of the text (line or inline) by a broken one, or adds a broken line
+/// annotation in front of a statement when there is none.
+fn break_an_annotation(text: &str, t: &mut Tape) -> String {
+    let mut toks = split_tokens(text);
+    let sites: Vec<usize> = toks.iter().enumerate().filter(|(_, k)| (k.starts_with('#') || k.starts_with('`')) && k.len() > 1).map(|(i, _)| i).collect();
+    let body = broken_annotation(t);
+    if !sites.is_empty() && t.chance(3, 4) {
+        let i = *t.pick_ref(&sites);
+        toks[i] = if toks[i].starts_with('#') { format!("# {body}\n") } else { format!("`{body}`") };
+    } else {
+        let starts: Vec<usize> = toks.iter().enumerate().filter(|(_, k)| *k == "let" || *k == "res").map(|(i, _)| i).collect();
+        if starts.is_empty() {
+            return text.to_owned();
+        }
+        let i = *t.pick_ref(&starts);
+        toks.insert(i, format!("# {body}\n"));
+    }
+    join_tokens(&toks)
+}
+
 fn generate(tape: &mut Tape) -> (&'static str, Sources) {
-    match tape.weighted(&[40, 25, 20, 15]) {
+    match tape.weighted(&[36, 22, 18, 14, 10]) {
+        4 => {
+            // A valid program with one annotation that is not YAML: the error comes from evaluation.
+            let (p, _) = Gen::new(tape, GenCfg::strict()).program();
+            let mut s = to_sources(&render_plain(&p));
+            let names: Vec<String> = s.files.keys().cloned().collect();
+            let name = tape.pick_ref(&names).clone();
+            let broken = break_an_annotation(&s.files[&name], tape);
+            s.files.insert(name, broken);
+            ("broken-annotation", s)
+        }
         0 => {
             let (p, _) = Gen::new(tape, GenCfg::full()).program();
             ("typed-trivia", to_sources(&render_trivia(&p, tape)))
